@@ -46,6 +46,8 @@ echo "suite: $SUITE"
 mkdir -p $D
 cp /tmp/seed.$ID.diff $D/patch.diff; cp $DEMO $D/; [ -f $O/NOTES.md ] && cp $O/NOTES.md $D/NOTES.md
 RES=""
+# the /repo section is serialised so that several seeds can be confirmed in parallel
+exec 9>/tmp/mut/.repo.lock; flock 9
 cd /repo && git apply $D/patch.diff || { echo "patch does not apply to /repo"; exit 2; }
 for c in $CHECKS; do
   OUT=$(cd /verif && ./gpv check $c 2>&1); RC=$?
@@ -53,6 +55,7 @@ for c in $CHECKS; do
   RES="$RES $c:exit$RC"
 done
 cd /repo && git checkout -- . && git status --short
+flock -u 9
 python3 - "$ID" "$NAME" "$WITH" "$WITHOUT" "$SUITE" "$RES" "$RUNPAT" <<'PY'
 import json,sys
 id,name,w,wo,suite,res,pat=sys.argv[1:8]
